@@ -28,10 +28,51 @@ def camel(r, n=None):
     return "".join(r.choice(WORDS) for _ in range(n))
 
 
+_EATEN = None
+
+
+def eaten_chars():
+    """identifier characters the *current* CleanUpLine removes from, or changes in, a tag key (none on the pinned
+    tree).  Probed from the real code so that the search for a failing input is drawn towards names that the tag
+    normalisation could merge."""
+    global _EATEN
+    if _EATEN is None:
+        _EATEN = []
+        try:
+            import importlib
+            preservative = importlib.import_module("kojen.preservative")
+            for c in string.ascii_letters + string.digits + "_":
+                probe = "{{{USER_Q" + c + "Q}}}"
+                if preservative.CleanUpLine(probe) != preservative.CleanUpLine("{{{USER_QQ}}}").replace("QQ", "Q" + c + "Q"):
+                    _EATEN.append(c)
+        except Exception:
+            _EATEN = []
+    return _EATEN
+
+
+def near_miss(r, w):
+    """a name one edit away from w (insert / delete / substitute one character after the first)"""
+    pool = eaten_chars() * 8 + list("tnseTNSE_01")
+    i = r.randrange(1, len(w) + 1)
+    k = r.randrange(3)
+    if k == 0 or len(w) < 3:
+        return w[:i] + r.choice(pool) + w[i:]
+    i = min(i, len(w) - 1)
+    if k == 1:
+        return w[:i] + w[i + 1:]
+    return w[:i] + r.choice(pool) + w[i + 1:]
+
+
 def names(r, kind_prefix, n, taken):
     out = []
     while len(out) < n:
-        w = kind_prefix + camel(r)
+        same = sorted(t for t in taken if isinstance(t, str) and t.startswith(kind_prefix) and len(t) > len(kind_prefix))
+        if same and r.random() < 0.25:
+            w = near_miss(r, r.choice(same))
+            if not re.fullmatch(r"[A-Za-z][A-Za-z0-9_]*", w) or not w.startswith(kind_prefix):
+                continue
+        else:
+            w = kind_prefix + camel(r)
         if w not in taken and w not in ("None", "True", "False"):
             taken.add(w)
             out.append(w)
